@@ -51,10 +51,10 @@ def build_sm(spec, bins=None):
         from cogent3.evolve import substitution_model as st
         from cogent3.evolve.predicate import MotifChange
 
-        if spec["cls"] == "GeneralStationary":
+        if spec["cls"] in ("GeneralStationary", "General"):
             from cogent3 import DNA
 
-            sm = ns.GeneralStationary(DNA.alphabet, **kw)
+            sm = getattr(ns, spec["cls"])(DNA.alphabet, **kw)
             _SM_CACHE[key] = sm
             return sm
         cls = getattr(st, spec["cls"], None) or getattr(ns, spec["cls"])
@@ -85,11 +85,14 @@ def structure(sm):
     out["monomers"] = [str(m) for m in alphabet.moltype.alphabet]
     out["inst"] = [[int(bool(x)) for x in row] for row in numpy.asarray(sm._instantaneous_mask)]
     out["param_order"] = [str(p) for p in sm.parameter_order]
-    if hasattr(sm, "predicate_masks"):
+    if hasattr(sm, "predicate_masks") and all(p in sm.predicate_masks for p in sm.parameter_order):
         out["pred_masks"] = [[[int(bool(x)) for x in row] for row in numpy.asarray(sm.predicate_masks[p])]
                              for p in sm.parameter_order]
     else:
         out["pred_masks"] = None
+    if hasattr(sm, "param_pick"):
+        out["param_pick"] = [[int(x) for x in row] for row in numpy.asarray(sm.param_pick)]
+        out["last_in_column"] = [[int(i), int(j)] for i, j in getattr(sm, "last_in_column", [])]
     out["mprob_class"] = type(sm.mprob_model).__name__
     out["stationary_calcQ"] = type(sm).calcQ is st.StationaryQ.calcQ
     out["general_calcQ"] = type(sm).calcQ is st._ContinuousSubstitutionModel.calcQ
@@ -143,7 +146,7 @@ def run_lf(case):
     try:
         return _run_lf(case)
     except ParameterOutOfBoundsError:
-        return {"refused": "ParameterOutOfBoundsError", "stage": "parameters"}
+        return {"refused": "ParameterOutOfBoundsError", "stage": "parameters", "structure": structure(sm)}
 
 
 def _run_lf(case):
@@ -292,8 +295,37 @@ def run_expm_all(case):
     return {"backends": backends(Q, case["t"], None, False)}
 
 
+def run_ratios(case):
+    from cogent3.maths.util import ratios_to_proportions
+
+    return {"props": [float(x) for x in ratios_to_proportions(1.0, list(case["ratios"]))]}
+
+
+def run_discrete(case):
+    """BH / DT: the psub matrices are the parameters (one partition per row, optimiser-side ratios)"""
+    import numpy
+
+    from cogent3 import get_model, make_aligned_seqs, make_tree
+
+    sm = get_model("BH") if case["model"] == "BH" else get_model("DT", motif_length=case.get("motif_length", 1))
+    lf = sm.make_likelihood_function(make_tree("(a:0.1,b:0.1,c:0.1)"))
+    W = [str(m) for m in sm.get_alphabet()]
+    seqs = ["".join(W[(k * 3 + i * (k + 1)) % len(W)] for i in range(4)) for k in range(3)]
+    lf.set_alignment(make_aligned_seqs(dict(zip("abc", seqs)), moltype="dna"))
+    out = {"default": mat(lf.get_psub_for_edge("a").array)}
+    for e, M in case["psubs"].items():
+        lf.set_param_rule("psubs", edge=e, value=numpy.array(M, float))
+    out["P"] = {e: mat(lf.get_psub_for_edge(e).array) for e in "abc"}
+    out["lnL_finite"] = bool(numpy.isfinite(lf.get_log_likelihood()))
+    return out
+
+
 def run_case(case):
     k = case["kind"]
+    if k == "ratios":
+        return run_ratios(case)
+    if k == "discrete":
+        return run_discrete(case)
     if k == "expm_all":
         return run_expm_all(case)
     if k == "lf":
